@@ -37,6 +37,7 @@ structure Call where
   listener : Nat
   laddr : Nat
   spell : Nat := 0                   -- how the request spells the code (0 = as generated)
+  poll : Bool := false               -- a status poll, not an activation / revocation
 deriving DecidableEq, Repr
 
 def ORes.isOk : ORes → Bool
@@ -134,6 +135,7 @@ def oresOf (st : Store) (t : Thread) : ORes :=
   | some .quota => .err "quota"
   | some .storage => .err "storage"
   | some .internal => .err "internal"
+  | some (.seen a r) => .err (if a then (if r then "seen:a1r1" else "seen:a1r0") else (if r then "seen:a0r1" else "seen:a0r0"))
   | none => .running
 
 def orecOf (st : Store) : Option ORec :=
@@ -147,6 +149,6 @@ def obs (c : Config) : Obs :=
     maps := (c.st.maps.filter (fun m => !m.pre)).map Mapping.tup,
     orec := orecOf c.st }
 
-def callOf (t : Thread) : Call := ⟨t.kind, t.listener, t.laddr, t.spell⟩
+def callOf (t : Thread) : Call := ⟨t.kind, t.listener, t.laddr, t.spell, t.poll⟩
 
 end Tunnox.C06
